@@ -260,7 +260,10 @@ def run_and_judge(prop, ctx, cfgbins, shards=1, compare=True, wrapper=None, forc
             for r in b:
                 if r.info == 'repr' and strip:  # representation-specific output (raw limbs): not comparable
                     continue
-                if r.info == 'nondet':          # output depends on OS randomness: judged by its own predicate only
+                if r.allow_panic:               # a documented caller error: debug builds may assert where release builds answer
+                    continue
+                if r.info == 'nondet':          # not comparable between builds (OS randomness; documented caller errors that
+                    #                                debug builds assert on): judged by its own predicate only
                     continue
                 ls = labels if r.only is None else [l for l in labels if r.only(l)]
                 if len(ls) < 2:
